@@ -78,8 +78,10 @@ MANIFEST = {
                 "(pid_t)pid` is one oracle-answered condition (waitpid returns the requested pid or -1), CSemProc.lean.  "
                 "Everything of Process.cpp OTHER than nextChar / read / the Arguments constructor / splitCommandLine / Process(), ~Process, "
                 "isRunning, kill, join, close, exit, the 2- and 3-argument read, write, setEnvironmentVariable, getEnvironmentVariable, daemonize (i.e. of start and open: the pid check, the environment preparation, vfork and execvpe themselves; start(commandLine)'s vector building; wait, interrupt, getEnvironmentVariables, prepareEnv) is still a HAND translation into the model, validated by the "
-                "correspondence run, not proved.  A harmless restructuring of a translated body breaks the equality proof (reported as "
-                "'proof obligations / model tie no longer check' without failing input).  Checked-memory abstraction (one block per argv word / option name, the option table holds "
+                "correspondence run, not proved.  A harmless restructuring of the control flow of a translated body breaks the equality proof (reported as "
+                "'proof obligations / model tie no longer check' without failing input: harmless C20-h1, -h2, -h4, -h5); renamed locals, const "
+                "locals that name a variable or literal, private static helpers with reference parameters (inlined), ASSERTs and reordered close "
+                "calls in open() do not (harmless C20-h3, -h6 quiet).  Checked-memory abstraction (one block per argv word / option name, the option table holds "
                 "null or NUL-free terminated names); Map iteration = ascending key order (C01).  'getopt rules' means the "
                 "reference parser of Spec.lean: long options match exactly (no GNU abbreviations), non-options are returned in order as "
                 "character 0.  PARTIAL in the proof sense (process_delivery_partial, OPEN block in Props.lean): vfork/execvpe/pipe/dup2/"
